@@ -18,3 +18,4 @@ func verifGuards(on bool)
 func verifStep() int
 func verifYield()
 func verifAwaitAfterFunc(id int)
+func verifAtomic(f func())
